@@ -11,6 +11,8 @@ tmo="${VERIF_TSAN_TIMEOUT:-5400}"
 root="$(cd "$(dirname "$0")/.." && pwd)"
 mkdir -p "$root/.build/logs"
 log="$root/.build/logs/tsan-$(echo "$filter" | tr -c 'A-Za-z0-9_\n' '_').log"
+extra=""
+case "$filter" in selftest*) extra="--ignored";; esac
 start=$(date +%s)
 cd "$root/harness" || { echo "{\"engine\":\"tsan\",\"filter\":\"$filter\",\"ran\":false,\"error\":\"no harness dir\"}"; exit 0; }
 : >"$log"
@@ -22,7 +24,7 @@ rc=0
 if [ "$brc" -eq 0 ]; then
   for i in $(seq 1 "$repeats"); do
     echo "=== tsan repeat $i" >>"$log"
-    timeout "$tmo" cargo +nightly test -Zbuild-std --target x86_64-unknown-linux-gnu -p vmon-miri --offline --test workloads -- "$filter" --test-threads=4 >>"$log" 2>&1
+    timeout "$tmo" cargo +nightly test -Zbuild-std --target x86_64-unknown-linux-gnu -p vmon-miri --offline --test workloads -- "$filter" --test-threads=4 $extra >>"$log" 2>&1
     r=$?
     [ "$r" -ne 0 ] && rc=$r
   done
@@ -40,9 +42,9 @@ note=""
 [ "$ran" = false ] && [ -z "$note" ] && note="no test ran (exit $rc)"
 sig=""
 if [ "$reports" -gt 0 ]; then
-  kind=$(grep -m1 -E '^WARNING: ThreadSanitizer' "$log" | sed -E 's/^WARNING: ThreadSanitizer: ([a-z -]+).*/\1/' | tr ' ' '-')
+  kind=$(grep -m1 -E '^WARNING: ThreadSanitizer' "$log" | sed -E 's/^WARNING: ThreadSanitizer: ([a-z -]+).*/\1/; s/ +$//' | tr ' ' '-')
   [ -z "$kind" ] && kind="failed-assertion"
-  frames=$(grep -E '^ +#[0-9]+ ' "$log" | grep -E 'c2pa|vmon_miri' | head -2 | sed -E 's/^ +#[0-9]+ ([^ ]+).*/\1/; s/::h[0-9a-f]{16}$//' | tr '\n' '+' | sed 's/+$//')
+  frames=$(grep -E '^ +#[0-9]+ ' "$log" | grep -E 'c2pa|vmon_miri|workloads' | head -2 | sed -E 's/^ +#[0-9]+ ([^ ]+).*/\1/; s/::h[0-9a-f]{16}$//' | tr '\n' '+' | sed 's/+$//')
   sig="${kind}|${frames}"
 fi
 printf '{"engine":"tsan","filter":"%s","ran":%s,"passed":%s,"failed":%s,"reports":%s,"first_report_sig":"%s","seconds":%s,"repeats":%s,"note":"%s","log":"%s"}\n' \
